@@ -57,7 +57,7 @@ use crate::crypto::{aggsig, signature};
 use crate::network::{RepairRequesterNetwork, RepairResponderNetwork, TransactionNetwork};
 use crate::repair::{Repair, RepairRequestHandler};
 use crate::shredder::{Shred, ShredValidationError, ValidatedShred};
-use crate::types::Fraction;
+use crate::types::{Fraction, SLOTS_PER_EPOCH};
 use crate::{All2All, Disseminator, Slot, ValidatorInfo};
 
 /// Time bound assumed on network transmission delays during periods of synchrony.
@@ -377,6 +377,12 @@ where
         // validate shred before forwarding or inserting
         let slot = shred.payload().header.slot;
         let slice_index = shred.payload().header.slice_index;
+        // ignore shreds for slots far in the future (the same bound the pool puts on votes and certificates):
+        // nothing is stored or announced for them, and slot arithmetic downstream stays far from `u64::MAX`
+        let finalized_slot = self.pool.read().await.finalized_slot();
+        if slot.inner() >= finalized_slot.inner().saturating_add(2 * SLOTS_PER_EPOCH) {
+            return Ok(());
+        }
         let leader_pk = self.epoch_info.epoch_info().leader(slot).pubkey;
         // use cached commitment, if we have it, to skip signature verification
         let cached = self
